@@ -6,6 +6,7 @@ import ast
 
 import z3
 
+from . import iterm as IT
 from . import logic as L
 from .symex import PathEnd, RaiseExc, VEmptyDict, VEmptyList, VEmptySet
 from .values import *  # noqa: F401,F403
@@ -70,6 +71,8 @@ def _forms(ex, args):
 
 @fn("pysmt.shortcuts.And", "z3.And", "z3.z3.And", tb="TB-fml")
 def _and(ex, args, kwargs, node):
+    if len(args) == 1 and isinstance(args[0], VList) and args[0].et is TIForm:
+        return VIForm(IT.i_andl(args[0].t))
     if len(args) == 1 and isinstance(args[0], VList):
         return VForm(L.f_andl(args[0].t))
     fs = _forms(ex, args)
@@ -96,6 +99,8 @@ def _or(ex, args, kwargs, node):
 
 @fn("pysmt.shortcuts.Not", "z3.Not", "z3.z3.Not", tb="TB-fml")
 def _not(ex, args, kwargs, node):
+    if len(args) == 1 and isinstance(args[0], VIForm):
+        return VIForm(IT.i_not(args[0].t))
     (f,) = _forms(ex, args)
     return VForm(L.f_not(f.t))
 
@@ -163,6 +168,14 @@ def _pop(ex, s, args, kwargs, node):
 
 @meth("Solver", "add_assertion", "add", tb="TB-solver")
 def _add_assertion(ex, s, args, kwargs, node):
+    if len(args) == 1 and isinstance(args[0], VIForm):
+        o = ex.st.obj(s.ref)
+        if o["pushed"]:
+            raise Unsupported("integer constraint asserted under push()")
+        if any(not x for x in ex._ints_stack):
+            raise Unsupported("integer constraint asserted inside a loop whose LoopSpec does not declare ints=True")
+        ex.st.update(s.ref, I=IT.LIForm.snoc(o.get("I", IT.LIForm.nil), args[0].t))
+        return VNone()
     fs = _forms(ex, args)
     o = ex.st.obj(s.ref)
     A = o["A"]
@@ -175,6 +188,9 @@ def _add_assertion(ex, s, args, kwargs, node):
 @meth("Solver", "solve", tb="TB-solver")
 def _solve(ex, s, args, kwargs, node):
     o = ex.st.obj(s.ref)
+    if "I" in o:
+        # Boolean and integer assertions share no symbol: satisfiable iff both parts are
+        return VBool(z3.And(L.nonempty(o["A"]), IT.SatI(o["I"])))
     return VBool(L.nonempty(o["A"]))
 
 
@@ -322,6 +338,23 @@ def _append(ex, l, args, kwargs, node):
         new = VList(l.LT.snoc(l.t, v.t), l.et)
     ex.mark_escaped(v)
     ex.rebind(target, l, new)
+    return VNone()
+
+
+@meth("list", "extend", tb="TB-py")
+def _extend(ex, l, args, kwargs, node):
+    (v,) = args
+    if isinstance(v, VEmptyList):
+        return VNone()
+    if not isinstance(v, VList):
+        raise Unsupported(f"extend by {v.ty}")
+    if isinstance(l, VEmptyList):
+        new = VList(v.t, v.et)
+    else:
+        if v.t.sort() != l.t.sort():
+            raise Unsupported("extend by a list of another element type")
+        new = VList(l.LT.concat(l.t, v.t), l.et)
+    ex.rebind(node.func.value, l, new)
     return VNone()
 
 
@@ -541,7 +574,68 @@ TCtx = _TCtx()
 def _symbol(ex, args, kwargs, node):
     if not isinstance(args[0], VStr):
         raise Unsupported("Symbol(name) with non-string")
+    if len(args) == 2:
+        if isinstance(args[1], VOpaque) and args[1].what == "pysmt.INT":
+            ex.trusted.add("TB-ifml")
+            return VITerm(IT.i_sym(args[0].t))
+        if isinstance(args[1], VOpaque) and args[1].what == "pysmt.BOOL":
+            return VForm(f_sym(args[0].t))
+        raise Unsupported("Symbol(name, type) with a type other than INT / BOOL")
     return VForm(f_sym(args[0].t))
+
+
+constants["pysmt.shortcuts.INT"] = VOpaque("pysmt.INT")
+constants["pysmt.typing.INT"] = VOpaque("pysmt.INT")
+constants["pysmt.shortcuts.BOOL"] = VOpaque("pysmt.BOOL")
+constants["pysmt.typing.BOOL"] = VOpaque("pysmt.BOOL")
+
+
+def _iterm(ex, v):
+    if isinstance(v, VITerm):
+        return v
+    if isinstance(v, VInt):
+        return VITerm(IT.i_const(v.t))  # pysmt coerces Python ints
+    raise Unsupported(f"integer term expected, got {v.ty}")
+
+
+@fn("pysmt.shortcuts.Int", tb="TB-ifml")
+def _int_const(ex, args, kwargs, node):
+    (c,) = args
+    if not isinstance(c, VInt):
+        raise Unsupported("Int(non-int)")
+    return VITerm(IT.i_const(c.t))
+
+
+@fn("pysmt.shortcuts.Plus", tb="TB-ifml")
+def _plus(ex, args, kwargs, node):
+    if len(args) == 1 and isinstance(args[0], VList) and args[0].et is TITerm:
+        return VITerm(IT.i_plusl(args[0].t))
+    if len(args) == 1 and isinstance(args[0], VEmptyList):
+        return VITerm(IT.i_const(z3.IntVal(0)))
+    ts = [_iterm(ex, a) for a in args]
+    t = IT.LITerm.nil
+    for x in ts:
+        t = IT.LITerm.snoc(t, x.t)
+    return VITerm(IT.i_plusl(t))
+
+
+def _cmp(mk):
+    def h(ex, args, kwargs, node):
+        a, b = (_iterm(ex, x) for x in args)
+        return VIForm(mk(a.t, b.t))
+
+    return h
+
+
+fn("pysmt.shortcuts.LE", tb="TB-ifml")(_cmp(lambda a, b: IT.i_le(a, b)))
+fn("pysmt.shortcuts.LT", tb="TB-ifml")(_cmp(lambda a, b: IT.i_lt(a, b)))
+fn("pysmt.shortcuts.GE", tb="TB-ifml")(_cmp(lambda a, b: IT.i_le(b, a)))
+fn("pysmt.shortcuts.GT", tb="TB-ifml")(_cmp(lambda a, b: IT.i_lt(b, a)))
+
+
+@meth("ITerm", "is_symbol", tb="TB-ifml")
+def _is_symbol(ex, t, args, kwargs, node):
+    return VBool(IT.is_sym(t.t))
 
 
 @meth("Ctx", "formula", tb="TB-antlr")
